@@ -77,12 +77,13 @@ claim("C18",
       "Restart and crash halves rest on C01/C02 (not yet theorems end to end).",
       "Coq proof (locality of the spec step, transferred by refinement) + checked model/code correspondence + metamorphic oracle")
 claim("C01",
-      "Coq theorems (PropC01.v): the live queues are exactly the replay of the entries the calls logged (ghost log, any history); replaying a SUFFIX of a legal log yields per queue the same next "
-      "position and exactly the records appended by the suffix, so deleted queues never reappear; if every retained record was appended in the suffix and every empty queue is mentioned there "
-      "(what GC's position records ensure), suffix and full log replay to the same observable state; codec and stream round trips. The file-level glue is decided by the checked correspondence on "
-      "histories with restarts at random points (roll-over, GC, delete/re-create, future truncations) and a before/after oracle on the real crate.",
-      "The end-to-end statement through files is not yet one theorem (see evidence.stated_not_proved).",
-      "Coq proof (ghost log + suffix simulation by induction over entries) + checked model/code correspondence + restart oracle")
+      "Coq theorems (PropC01.v), END TO END: C01_restart_identity - for every history of well-formed calls with clean restarts anywhere, from a fresh directory, dropping the log and opening the "
+      "directory again succeeds and yields the same queues, the same retained records (range for all bounds, byte for byte), the same last position and last record; C01_history_spec - the whole history "
+      "refines the sequential specification run over the calls alone (restarts are no-ops), for any block size, blocks per file and checksum function, however many files were rolled over or collected. "
+      "Proved through: ghost entry log (live = replay), suffix-replay simulation and coverage, the files as one byte stream (writer and reader simulations), resynchronisation at a block boundary, the "
+      "file-handle invariant, a global invariant preserved by every call incl. GC and re-established by open. Tied to the code by differential execution on restart histories and a before/after oracle.",
+      "Premises: hist_ok (UTF-8 names < 2^16 bytes, positions/batch ends <= 2^64, payloads < 2^32 bytes, stream below 2^64 files), L_GC = L_IO = false (the current code). No I/O hypothesis is needed.",
+      "Coq proof (global invariant by induction over calls and restarts; refinement to the spec with restarts as no-ops) + checked model/code correspondence + restart oracle")
 claim("C08",
       "Coq theorems (PropC08.v): for ANY directory content the queues returned by open have strictly increasing positions and consistent payload offsets; whatever decodes as an entry is exactly the "
       "serialization of that entry; replay inserts exactly the records the entries carry; under CRC-detected damage of any set of frames the entries delivered are a subsequence of those written. "
